@@ -29,15 +29,16 @@ FID = "MuIgnoresEs"
 # many JVMs run side by side: keep each one's helper threads down (measured: 29 s -> 20 s for 12 processes)
 JVM_ENV = {"JAVA_TOOL_OPTIONS": "-XX:ParallelGCThreads=1 -XX:CICompilerCount=2"}
 
-DEVS = ["MuIgnoresEs", "SpreadOverAll", "AscendingSort", "NoUnsort", "StopEarly", "EsDroppedInLoop", "AbsGainFloor"]
+DEVS = ["MuIgnoresEs", "SpreadOverAll", "AscendingSort", "NoUnsort", "StopEarly", "EsDroppedInLoop", "AbsGainFloor",
+        "SortOrderCached"]
 # model-level mutant -> the invariant that must refute it
 DEV_REFUTED_BY = {"MuIgnoresEs": "KKT", "SpreadOverAll": "SumIsP", "AscendingSort": "NonNeg",
                   "NoUnsort": "PermutationEquivariant", "StopEarly": "NonNeg", "EsDroppedInLoop": "MatchesOptimum",
-                  "AbsGainFloor": "ScaleLaws"}
+                  "AbsGainFloor": "ScaleLaws", "SortOrderCached": "MatchesOptimum"}
 INVARIANTS = ["TypeOK", "NonNeg", "SumIsP", "KKT", "MatchesOptimum", "WaterLevelUnique", "Optimal",
-              "ExchangeOptimal", "PermutationEquivariant", "RunAgrees", "ScaleLaws", "ScaleLawsOptimum", "DeadChannelLaw", "KeepsOne", "PsNonNeg", "DropSound",
+              "ExchangeOptimal", "PermutationEquivariant", "RunAgrees", "ScaleLaws", "ScaleLawsOptimum", "DeadChannelLaw", "ReplicationLaw", "ReplicationLawOptimum", "KeepsOne", "PsNonNeg", "DropSound",
               "StopSound"]
-ACTIONS = ["Pick", "Sort", "Level", "DropWorst", "Spread", "Unsort", "Mu"]
+ACTIONS = ["Pick", "Sort", "Level", "DropWorst", "Spread", "Unsort", "Mu", "Reuse"]
 
 G_STD = [(1, 4), (1, 2), (1, 1), (2, 1), (4, 1), (8, 1)]
 G_WIDE = [(1, 1024), (1, 32), (1, 1), (32, 1), (1024, 1)]
@@ -51,9 +52,9 @@ def rset(pairs):
 
 
 def model(gains, first, lens, powers, noises, energies, dev=(), emit=True, invariants=None, **opt):
-    o = dict(AllTieBreaks=True, DropOnTie=False, PermAll=True, GridN=4, ExN=4,
+    o = dict(AllTieBreaks=True, DropOnTie=False, PermAll=True, Reuse=True, GridN=4, ExN=4,
              OptAMax=[(160, 1), (160, 1)], ExAMax=(160, 1), Scales={(3, 1), (1, 2)}, GainFloor=(1, 4),
-             DeadGains={(1, 4096)}, DeadMaxLen=2)
+             DeadGains={(1, 4096)}, DeadCount=2, DeadMaxLen=3, Reps={2, 3}, RepMaxLen=4)
     o.update(opt)
     optrec = tlc.tla(o)
     defs = {"Gains": rset(gains), "FirstGains": rset(first), "Lens": tlc.tla(set(lens)),
@@ -110,6 +111,10 @@ def call(g, P, n0, es):
         return waterfilling.doWF(g, P, n0, es)
 
 
+def short(v):
+    return str(v) if len(v) <= 12 else str(v[:8])[:-1] + f", ... {len(v)} values]"
+
+
 def judge_result(res, n, want, wmu, out_scale=1.0, tol=TOL, ref=1.0):
     """compare (powers, mu) / out_scale with the exact expected values; None or (what, is_mu)"""
     pw, mu = res
@@ -122,7 +127,7 @@ def judge_result(res, n, want, wmu, out_scale=1.0, tol=TOL, ref=1.0):
         x = float(pw[i]) / out_scale
         if not (np.isfinite(x) and abs(x - want[i]) <= tol * max(1.0, ref, abs(want[i]))):
             return (f"power of channel {i} is {x!r}, the optimum (exact, from TLC) is {want[i]!r}; "
-                    f"returned {[float(v) / out_scale for v in pw]} expected {want}"), False
+                    f"returned {short([float(v) / out_scale for v in pw])} expected {short(want)}"), False
     x = float(mu) / out_scale
     if not (np.isfinite(x) and abs(x - wmu) <= tol * max(1.0, ref, abs(wmu))):
         return (f"returned water level {x!r}, but the allocation is max(0, mu - N0/(Es g_i)) only for mu = {wmu!r}"), True
@@ -203,6 +208,10 @@ def run_case(c):
         bad = attempt("P, N0, Es as Python ints", gf.copy(), int(P), int(n0), int(es))
         if bad:
             return "violation", bad[0], calls
+        if all(x[1] == 1 for x in c["g"]):       # the all-integer call, e.g. doWF(np.array([1, 2, 4]), 2, 1, 1)
+            bad = attempt("int64 gains AND Python-int P, N0, Es", gf.astype(np.int64), int(P), int(n0), int(es))
+            if bad:
+                return "violation", bad[0], calls
     bad = attempt("P, N0, Es as numpy float64 scalars", gf.copy(), np.float64(P), np.float64(n0), np.float64(es))
     if bad:
         return "violation", bad[0], calls
@@ -216,22 +225,50 @@ def run_case(c):
             bad = attempt(label, *args, out_scale=oscale)
             if bad:
                 return "violation", bad[0], calls
-    # 4. a channel whose bottom is not below the water level is irrelevant (DeadChannelLaw): append / prepend
-    #    channels 20 and 300 orders of magnitude weaker than the weakest one
-    for k in (1e-20, 1e-300):
-        dead = float(gf.min()) * k
-        if not n0 / (es * dead) >= wmu:      # premise of the law, on emitted numbers
-            continue
-        for label, arr, w in ((f"channel with gain min(g) x {k:g} appended", np.append(gf, dead), want + [0.0]),
-                              (f"channel with gain min(g) x {k:g} prepended", np.insert(gf, 0, dead), [0.0] + want)):
-            calls += 1
-            try:
-                res = call(arr, P, n0, es)
-            except Exception as ex:
-                return "violation", f"{label}: doWF raised {type(ex).__name__}: {ex}", calls
-            bad = judge_result(res, n + 1, w, wmu)
+    def exact(label, arr, P_, w):
+        """a derived call whose exact expected result follows from a law of WaterFilling.tla"""
+        nonlocal calls
+        calls += 1
+        before = arr.copy()
+        try:
+            res = call(arr, P_, n0, es)
+        except Exception as ex:
+            return f"{label}: doWF raised {type(ex).__name__}: {ex}"
+        if not np.array_equal(arr, before):
+            return f"{label}: doWF modified its input array"
+        bad = judge_result(res, len(w), w, wmu)
+        return None if bad is None else f"{label}: " + bad[0]
+
+    # 4. channels whose bottom is not below the water level are irrelevant (DeadChannelLaw): one, four and ten of
+    #    them, equal and distinct, 20 .. 300 orders of magnitude weaker than the weakest channel, at the front, in
+    #    the middle and at the end (up to ten successive drops in one call)
+    d0 = float(gf.min()) * 1e-20
+    if n0 / (es * d0) >= wmu:                # premise of the law, on emitted numbers (gains below d0 even more so)
+        mid = n // 2
+        distinct10 = d0 / np.arange(1.0, 11.0)
+        mixed10 = np.concatenate([d0 / np.arange(1.0, 6.0), np.full(5, d0 / 7.0)])
+        for label, pos, dead in (("one dead channel (min(g) x 1e-20) appended", n, np.array([d0])),
+                                 ("one dead channel (min(g) x 1e-20) prepended", 0, np.array([d0])),
+                                 ("one dead channel (min(g) x 1e-300) appended", n, np.array([float(gf.min()) * 1e-300])),
+                                 ("four distinct dead channels inserted in the middle", mid, distinct10[:4][::-1].copy()),
+                                 ("ten distinct dead channels prepended", 0, distinct10),
+                                 ("ten equal dead channels appended", n, np.full(10, d0)),
+                                 ("ten dead channels (five distinct, five equal) inserted in the middle", mid, mixed10)):
+            bad = exact(label, np.concatenate([gf[:pos], dead, gf[pos:]]), P,
+                        want[:pos] + [0.0] * len(dead) + want[pos:])
             if bad:
-                return "violation", f"{label}: " + bad[0], calls
+                return "violation", bad, calls
+    # 6. replication law (ReplicationLaw): g repeated m times with total power m P -> the allocation repeated and
+    #    the same level; tiled (g1 g2 .. g1 g2 ..) and blocked (g1 g1 .. g2 g2 ..), up to length 67 n (> 16
+    #    elements: other sort path inside argsort; many equal gains; long runs of the drop loop)
+    for m in (2, 8, 67):
+        for label, arr, w in ((f"vector tiled {m} times, P x {m}", np.tile(gf, m), want * m),
+                              (f"every gain repeated {m} times, P x {m}", np.repeat(gf, m), [x for x in want for _ in range(m)])):
+            if n == 1 and label.startswith("every"):
+                continue
+            bad = exact(label, arr, P * m, w)
+            if bad:
+                return "violation", bad, calls
     # 5. (rel) gains spread over many orders of magnitude INSIDE the vector, low to extreme total power.  No exact
     #    value exists in 32-bit arithmetic; the relations of the property statement are evaluated numerically
     #    from first principles on what doWF returned: p >= 0, SUM p = P, p_i = max(0, mu - N0/(Es g_i)).
@@ -252,11 +289,55 @@ def run_case(c):
                     or abs(pw.sum() - P * pk) > TOL * P * pk or np.abs(pw - kkt).max() > TOL * unit:
                 return "violation", (f"{label}: returned powers {pw.tolist()} and level {mu!r} do not satisfy "
                                      f"p >= 0, SUM p = {P * pk!r}, p_i = max(0, mu - N0/(Es g_i)) = {kkt.tolist()}"), calls
+            # (rel) permuting the widely spread channels permutes the allocation (relation between two runs)
+            for pname, perm in (("reversed", np.arange(n)[::-1]), ("rotated", np.roll(np.arange(n), 1))) if n > 1 else ():
+                calls += 1
+                try:
+                    pw2, mu2 = call(gs_[perm].copy(), P * pk, n0, es)
+                except Exception as ex:
+                    return "violation", f"{label}, {pname}: doWF raised {type(ex).__name__}: {ex}", calls
+                pw2 = np.asarray(pw2, dtype=float)
+                if pw2.shape != (n,) or not np.all(np.abs(pw2 - pw[perm]) <= TOL * unit) or not abs(float(mu2) - mu) <= TOL * unit:
+                    return "violation", (f"{label}: the {pname} vector gets {pw2.tolist()}, level {float(mu2)!r}; the "
+                                         f"same permutation of the first result is {pw[perm].tolist()}, level {mu!r}"), calls
     return "ok", "", calls
 
 
 def run_cases(cases):
-    return [run_case(c) for c in cases]
+    """all variants of every case, then (action Reuse of the specification) the call history of a caller that keeps
+    ONE gains array per length and overwrites it in place with the next case before calling doWF again; every
+    call must return the exact values of the case whose numbers are in the buffer at that moment"""
+    res = [run_case(c) for c in cases]
+    bufs = {}
+    last = {}
+    for i, c in enumerate(cases):
+        if res[i][0] != "ok":
+            continue
+        gf = np.array([fl(x) for x in c["g"]], dtype=float)
+        n = len(gf)
+        fresh = n not in bufs
+        buf = bufs.setdefault(n, np.empty(n))
+        prev, last[n] = last.get(n), c
+        buf[:] = gf
+        want, wmu = [fl(x) for x in c["pw"]], fl(c["mu"])
+        bad = None
+        for label, P_, w, k in (("", fl(c["p"]), want, 1.0), (" and again with P and N0 doubled", 2 * fl(c["p"]), want, 2.0)):
+            try:
+                r = call(buf, P_, k * fl(c["n0"]), fl(c["es"]))
+            except Exception as ex:
+                bad = f"doWF raised {type(ex).__name__}: {ex}"
+                break
+            j = judge_result(r, n, w, wmu, out_scale=k)
+            if j or not np.array_equal(buf, gf):
+                bad = (j[0] if j else "doWF modified its input array") + label
+                break
+        if bad:
+            res[i] = ("violation", ("call on a gains array that the caller reuses" +
+                                    (" (first use)" if fresh else " (overwritten in place with these gains after an earlier call)")
+                                    + ": " + bad), res[i][2] + 2, prev)
+        else:
+            res[i] = (res[i][0], res[i][1], res[i][2] + 2)
+    return res
 
 
 def size_of(c):
@@ -275,11 +356,11 @@ def partitions(tier):
         for p, n0, f in itertools.product(POWERS, NOISES, G_STD):
             jobs.append({"name": f"std4 P={p} N0={n0} g1={f}", "model": dict(
                 gains=G_STD, first=[f], lens=[1, 2, 3, 4] if f == G_STD[0] else [2, 3, 4], powers=[p], noises=[n0],
-                energies=ENERGIES, OptAMax=[(160, 1), (160, 1), (160, 1)], GridN=8)})
+                energies=ENERGIES, OptAMax=[(160, 1), (160, 1), (160, 1), (16, 1)], GridN=8, Reuse=False)})
         for p, n0, f in itertools.product(POWERS, NOISES, G_WIDE):
             jobs.append({"name": f"wide P={p} N0={n0} g1={f}", "model": dict(
                 gains=G_WIDE, first=[f], lens=[1, 2, 3, 4], powers=[p], noises=[n0], energies=ENERGIES,
-                OptAMax=[(160, 1), (32, 1)], ExAMax=(32, 1), GridN=4)})
+                OptAMax=[(160, 1), (32, 1)], ExAMax=(32, 1), GridN=4, Reuse=False)})
     return jobs
 
 
@@ -292,10 +373,11 @@ def model_devs(ctx, ex):
     jobs = [{"dev": d, "model": dict(SMALL, dev=[d], emit=False, invariants=[DEV_REFUTED_BY[d]])} for d in DEVS]
     # the absolute gain floor (1/4) lies below every gain of SMALL: EVERY other invariant holds on the domain,
     # only the scaling law (k = 1/8 moves the gains under the floor) refutes it
-    jobs[-1]["model"].update(invariants=INVARIANTS, Scales={(1, 8)}, GainFloor=(1, 4))
+    next(j for j in jobs if j["dev"] == "AbsGainFloor")["model"].update(invariants=INVARIANTS, Scales={(1, 8)},
+                                                                        GainFloor=(1, 4))
     tie = {"model": dict(gains=G_STD, first=G_STD, lens=[1, 2, 3], powers=[(1, 1)], noises=[(1, 1)],
                          energies=[(1, 1), (2, 1)], DropOnTie=True)}
-    cov = {"model": dict(SMALL, emit=False, DeadGains={(1, 64), (1, 4096)}, DeadMaxLen=3), "coverage": True}       # intended instance with per-action coverage
+    cov = {"model": dict(SMALL, emit=False, DeadGains={(1, 64), (1, 4096)}, DeadCount=2, DeadMaxLen=4), "coverage": True}       # intended instance with per-action coverage
     res = list(ex.map(run_model, jobs + [tie, cov]))
     ctx.account(res.pop(), MODULE, "intended instance, small domain, coverage")
     for j, r in zip(jobs, res[:-1]):
@@ -333,11 +415,11 @@ def run(ctx):
     cases = sorted(cases.values(), key=size_of)
     chunks = [cases[i::32] for i in range(32)]
     res = pool_map(run_cases, chunks)
-    out = sorted(((size_of(c), i, c, k, t, m) for ch, rs in zip(chunks, res) for i, (c, (k, t, m)) in enumerate(zip(ch, rs))),
-                 key=lambda x: x[:2])
+    out = sorted(((size_of(c), i, c, k, t, m, (x or [None])[0]) for ch, rs in zip(chunks, res)
+                  for i, (c, (k, t, m, *x)) in enumerate(zip(ch, rs))), key=lambda x: x[:2])
     ties = 0
     ncalls = 0
-    for _, _, c, kind, text, m in out:
+    for _, _, c, kind, text, m, prev in out:
         ctx.ok(case_key(c), n=m)
         ncalls += m
         ties += bool(c["tie"])
@@ -345,7 +427,7 @@ def run(ctx):
             ctx.finding(FID, text, {"stage": "R", "case": c})
         elif kind == "violation":
             ctx.violation(f"doWF(g={[fl(x) for x in c['g']]}, P={fl(c['p'])}, N0={fl(c['n0'])}, Es={fl(c['es'])}): " + text,
-                          {"stage": "R", "case": c})
+                          {"stage": "R", "case": c, "prev": prev})
     for c in cases[:: max(1, len(cases) // 3)][:3]:
         ctx.sample({k: c[k] for k in ("g", "p", "n0", "es", "pw", "mu", "rem")})
     ctx.exhaustive = True
@@ -362,7 +444,8 @@ def replay(ctx, data):
     if c.get("stage") == "T":
         from . import c12_trace
         return c12_trace.replay(ctx, c)
-    kind, text, m = run_case(c["case"])
+    hist = ([c["prev"]] if c.get("prev") else []) + [c["case"]]     # the buffer's previous contents, then the case
+    kind, text, m = run_cases(hist)[-1][:3]
     ctx.ok(case_key(c["case"]), n=m)
     if kind == "finding":
         ctx.finding(FID, text, c)
